@@ -87,14 +87,25 @@ def adversarial(prog, rnd):
     body_prefix.append(ast.parse('%s = 5' % extra[0]).body[0])              # write-only local
   if len(extra) > 1:
     globs[extra[1]] = 3                                                      # read-only global
-    body_prefix.append(ast.parse('%s = %s + %s - %s' % (mapping.get('a', 'a'), mapping.get('a', 'a'),
-                                                        extra[1], extra[1])).body[0])
+    a_init = any(isinstance(st, ast.Assign) and any(isinstance(tg, ast.Name) and tg.id == mapping.get('a', 'a')
+                                                     for tg in st.targets) for st in fnode.body[:4])
+    if a_init and 'exotic' not in prog.tags:
+      body_prefix.append(ast.parse('%s = %s + %s - %s' % (mapping.get('a', 'a'), mapping.get('a', 'a'),
+                                                          extra[1], extra[1])).body[0])
+    else:
+      body_prefix.append(ast.parse('ro_probe_ = %s' % extra[1]).body[0])
   # keep `global` statements first
   k = 0
   while k < len(fnode.body) and isinstance(fnode.body[k], ast.Global):
     k += 1
   # the prefix that reads `a` must come after a's initialisation (first two statements)
-  fnode.body[k + 2:k + 2] = body_prefix
+  if 'exotic' in prog.tags:
+    # (after a leading docstring, if any)
+    k += 1 if (k < len(fnode.body) and isinstance(fnode.body[k], ast.Expr)
+               and isinstance(fnode.body[k].value, ast.Constant)) else 0
+    fnode.body[k:k] = body_prefix
+  else:
+    fnode.body[k + 2:k + 2] = body_prefix
   ast.fix_missing_locations(tree)
   p = gen.Prog('adv:' + prog.name, ast.unparse(tree) + '\n', set(prog.tags) | {'adversarial'}, globs, params)
   p.mapping = mapping
@@ -143,11 +154,62 @@ f = _mk()
   return out
 
 
-WITNESS = []
+# Vocabulary names in roles that are bound but never READ: parameters of lambdas / nested
+# functions (keyword-only too) and comprehension targets. A call inside such a scope is
+# rewritten to `ag__.converted_call(..., <function scope name>)`, so a generated scope name
+# equal to the unread user name would be captured there.
+def param_role_programs():
+  out = []
+  for nm in ['fscope', 'lscope', 'fscope_1', 'do_return', 'retval_', 'get_state', 'loop_body', 'itr']:
+    src = gen.HELPER_SRC + '''def f(x, n, b, xs):
+  k = lambda %(N)s, v: helper(v, 1) + t(1, v)
+  def g(v, *, %(N)s=None):
+    if v > x:
+      return helper(v, 2)
+    return v
+  a = 0
+  for i in range(n):
+    a = a + k(i, i) + g(i, %(N)s=i)
+  r = [helper(e, 0) for %(N)s in xs for e in (1, x)]
+  if b:
+    return (a, r)
+  w = 0
+  while w < n:
+    w = w + 1
+    if w == x:
+      break
+  return (a, r, w)
+''' % {'N': nm}
+    out.append(gen.Prog('par:%s' % nm, src, {'param_role'}))
+  return out
+
+
+# A user variable named like the injected operator module. Listed known finding: re-observed
+# on every run through this witness.
+WITNESS = [
+    ('w:user_local_named_ag__', '''def f(x, n, b, xs):
+  ag__ = 5
+  a = 0
+  for i in range(n):
+    if i > x:
+      a = a + ag__
+  return a
+'''),
+]
+
+
+def _binds_ag(src):
+  for n in ast.walk(ast.parse(src)):
+    if (isinstance(n, ast.Name) and n.id == 'ag__') or (isinstance(n, ast.arg) and n.arg == 'ag__'):
+      return True
+  return False
 
 
 def classify(p, m, r):
-  return set(C01.classify(p, m, r))
+  tags = set(C01.classify(p, m, r))
+  if r.get('kind') in ('mismatch', 'conversion_error') and _binds_ag(p.src):
+    tags.add('user_identifier_equal_to_injected_module_alias_ag__')
+  return tags
 
 
 def names_work(payload):
@@ -236,7 +298,10 @@ def run(tier):
     sk3 = [p for p in gen.skeletons(3) if p.name.count('>') == 2]
     base = sk + rnd.sample(sk3, 150) + gen.random_programs(200, R.seed + 7, gen.ALL_FEATURES - {'global'})
   base += [gen.Prog(n, s, {'extra'}, C01.EXTRA_GLOBS.get(n)) for n, s in C01.EXTRA if 'global' not in n]
-  progs = [adversarial(p, rnd) for p in base] + closure_programs()
+  from vf import exotic
+  base += [p for p in exotic.programs() if 'global' not in p.name]
+  progs = [adversarial(p, rnd) for p in base] + closure_programs() + param_role_programs()
+  progs += [gen.Prog(n, src, {'witness'}) for n, src in WITNESS]
   bounds = {'n': 3, 'len': 2}
   pct, ppt = (15.0, 4.0) if tier == 'quick' else (60.0, 10.0)
   e1run.run_family(R, progs, [M], bounds, pct, ppt, classify,
